@@ -18,19 +18,24 @@ theorem E.induct {motive : E V → Prop}
     (list : ∀ xs, (∀ x ∈ xs, motive x) → motive (.list xs))
     (tuple : ∀ xs, (∀ x ∈ xs, motive x) → motive (.tuple xs))
     (dict : ∀ es, (∀ p ∈ es, motive p.1 ∧ motive p.2) → motive (.dict es))
+    (set : ∀ ty xs, (∀ x ∈ xs, motive x) → motive (.set ty xs))
     (cargs : ∀ args kwargs, (∀ x ∈ args, motive x) → (∀ p ∈ kwargs, motive p.2) →
-      motive (.cargs args kwargs)) :
+      motive (.cargs args kwargs))
+    (sub : ∀ base v items, (∀ x ∈ items, motive x) → motive (.sub base v items)) :
     ∀ e, motive e
   | .lit v => lit v
-  | .texpr steps => texpr steps (fun s _ => E.induct lit texpr spec list tuple dict cargs s.2)
-  | .spec e => spec e (E.induct lit texpr spec list tuple dict cargs e)
-  | .list xs => list xs (fun x _ => E.induct lit texpr spec list tuple dict cargs x)
-  | .tuple xs => tuple xs (fun x _ => E.induct lit texpr spec list tuple dict cargs x)
-  | .dict es => dict es (fun p _ => ⟨E.induct lit texpr spec list tuple dict cargs p.1,
-      E.induct lit texpr spec list tuple dict cargs p.2⟩)
+  | .texpr steps => texpr steps (fun s _ => E.induct lit texpr spec list tuple dict set cargs sub s.2)
+  | .spec e => spec e (E.induct lit texpr spec list tuple dict set cargs sub e)
+  | .list xs => list xs (fun x _ => E.induct lit texpr spec list tuple dict set cargs sub x)
+  | .tuple xs => tuple xs (fun x _ => E.induct lit texpr spec list tuple dict set cargs sub x)
+  | .dict es => dict es (fun p _ => ⟨E.induct lit texpr spec list tuple dict set cargs sub p.1,
+      E.induct lit texpr spec list tuple dict set cargs sub p.2⟩)
+  | .set ty xs => set ty xs (fun x _ => E.induct lit texpr spec list tuple dict set cargs sub x)
   | .cargs args kwargs => cargs args kwargs
-      (fun x _ => E.induct lit texpr spec list tuple dict cargs x)
-      (fun p _ => E.induct lit texpr spec list tuple dict cargs p.2)
+      (fun x _ => E.induct lit texpr spec list tuple dict set cargs sub x)
+      (fun p _ => E.induct lit texpr spec list tuple dict set cargs sub p.2)
+  | .sub base v items => sub base v items
+      (fun x _ => E.induct lit texpr spec list tuple dict set cargs sub x)
 termination_by e => sizeOf e
 decreasing_by all_goals nested_dec
 
@@ -129,7 +134,7 @@ theorem recorded_wf {F : Facts} (hwf : WF F = true) {d c : String} (hc : charOf 
     ∃ kind ks caught, meaning d = some kind ∧ dispatchOf F c = some (ks, caught) ∧
       Kind.ofString ks = kind ∧ caughtOfKind F kind = caught := by
   simp only [WF, Bool.and_eq_true] at hwf
-  have hnd := hwf.1.1.1.1.1
+  have hnd := hwf.1.1.1.1.1.1
   simp only [noDroppedOp, List.all_eq_true] at hnd
   simp only [charOf, Option.map_eq_some_iff] at hc
   obtain ⟨⟨d', c'⟩, hfind, hc'⟩ := hc
@@ -150,7 +155,7 @@ theorem callChar_wf {F : Facts} (hwf : WF F = true) {c ks : String} {caught : Li
     (hd : dispatchOf F c = some (ks, caught)) :
     (Kind.ofString ks == .call) = F.argExempt.contains c := by
   simp only [WF, Bool.and_eq_true] at hwf
-  have hcc := hwf.1.1.1.2
+  have hcc := hwf.1.1.1.1.2
   simp only [callCharOk, Bool.and_eq_true, List.all_eq_true] at hcc
   have hcc := hcc.1.2
   simp only [dispatchOf, Option.map_eq_some_iff] at hd
@@ -167,7 +172,35 @@ theorem callChar_wf {F : Facts} (hwf : WF F = true) {c ks : String} {caught : Li
     returns it (a callable is a literal in argument mode; the callee is not a glom spec
     object stored inside the target's data) -/
 def PlainCallee (prim : Prim V S) : Prop :=
-  ∀ s t f, prim.revalFunc s t f = (f, s)
+  ∀ s t f, prim.revalFunc s t f = (.ok f, s)
+
+theorem plainCallee_eq {prim : Prim V S} (h : PlainCallee prim) : prim.revalFunc = plainRV := by
+  funext s t f; exact h s t f
+
+/-- the type tests of `_ArgValuator.mode` are exact and name the documented containers -/
+theorem argMode_wf {F : Facts} (hwf : WF F = true) :
+    (∀ base, F.argInst.contains base = false) ∧
+    rebuilds F "list" = true ∧ rebuilds F "tuple" = true ∧ rebuilds F "dict" = true ∧
+    (∀ t, rebuilds F t = rebuiltTypes.contains t) := by
+  simp only [WF, Bool.and_eq_true] at hwf
+  have ham := hwf.1.1.1.2
+  simp only [argModeOk, Bool.and_eq_true, List.isEmpty_iff, List.all_eq_true] at ham
+  have hall := ham.1.2
+  have hinst : ∀ base, F.argInst.contains base = false := fun base => by rw [ham.1.1.2]; rfl
+  have hreb : ∀ t, rebuilds F t = rebuiltTypes.contains t := by
+    intro t
+    simp only [rebuilds, hinst, Bool.or_false]
+    cases h1 : F.argExact.contains t with
+    | true =>
+      have := ham.2 t (by simpa using h1)
+      exact this.symm
+    | false =>
+      cases h2 : rebuiltTypes.contains t with
+      | false => rfl
+      | true =>
+        have := hall t (by simpa using h2)
+        rw [h1] at this; cases this
+  refine ⟨hinst, ?_, ?_, ?_, hreb⟩ <;> rw [hreb] <;> rfl
 
 theorem guarded_eq (F : Facts) (k : Nat) (kind : Kind) (caught : List String) (s : S)
     (hc : caughtOfKind F kind = caught) (r : Except PyExc V × S) :
@@ -177,40 +210,51 @@ theorem guarded_eq (F : Facts) (k : Nat) (kind : Kind) (caught : List String) (s
   | ok v => rfl
   | error e => simp only [guarded, guardE, stepOut, errOf, hc]; split <;> rfl
 
-/-- one iteration of the loop body = evaluate the argument, then apply the operation
-    the dunder denotes -/
-theorem stepOp_eq (F : Facts) (hwf : WF F = true) (prim : Prim V S) (hcallee : PlainCallee prim)
+/-- one iteration of the loop body = (for a call: pass the callee through `arg_val`, then)
+    evaluate the argument, then apply the operation the dunder denotes -/
+theorem stepOp_eq (F : Facts) (hwf : WF F = true) (prim : Prim V S)
     (target : V) (k : Nat) (c : String) (s : S) (cur : V) (ev : Run S Err (AV V)) (kind : Kind)
     (ks : String) (caught : List String) (hd : dispatchOf F c = some (ks, caught))
     (hk : Kind.ofString ks = kind) (hc : caughtOfKind F kind = caught) :
     stepOp F prim target k c s cur ev =
-      match ev s with
-      | (.error e, s1) => (.error e, s1)
-      | (.ok av, s1) => stepOut F k kind s1 (pyApply prim kind s1 cur av) := by
+      match calleeOf (some kind) (fun s f => prim.revalFunc s target f) s cur with
+      | (.error e, s0) => (.error e, s0)
+      | (.ok f, s0) =>
+        match ev s0 with
+        | (.error e, s1) => (.error e, s1)
+        | (.ok av, s1) => stepOut F k kind s1 (pyApply prim kind s1 f av) := by
   have hcc := callChar_wf hwf hd
   rw [hk] at hcc
   unfold stepOp
   by_cases hch : F.argExempt.contains c = true
   · have hkc : kind = .call := by rw [hch] at hcc; simpa using hcc
     subst hkc
-    simp only [hch, if_true, hd, hk, hcallee s target cur]
-    cases hev : ev s with
-    | mk r s1 =>
-      cases r with
+    simp only [hch, if_true, hd, hk, calleeOf, beq_self_eq_true]
+    cases hrv : prim.revalFunc s target cur with
+    | mk rf s0 =>
+      cases rf with
       | error e => rfl
-      | ok av =>
-        cases av with
-        | val v => rfl
-        | call args kwargs => simp only [pyApply, guarded_eq F k .call caught s1 hc]
+      | ok f =>
+        simp only
+        cases hev : ev s0 with
+        | mk r s1 =>
+          cases r with
+          | error e => rfl
+          | ok av =>
+            cases av with
+            | val v => rfl
+            | call args kwargs => simp only [pyApply, guarded_eq F k .call caught s1 hc]
   · have hne : (kind == Kind.call) = false := by
       rw [hcc]; simpa using hch
-    simp only [hch]
+    have hne' : (some kind == some Kind.call) = false := by
+      cases kind <;> first | (simp at hne; done) | rfl
+    simp only [hch, calleeOf, hne', Bool.false_eq_true, if_false]
     cases hev : ev s with
     | mk r s1 =>
       cases r with
       | error e => rfl
       | ok av =>
-        simp only [Bool.false_eq_true, if_false]
+        simp only
         unfold applyBranch
         simp only [hd, hk]
         cases kind <;> cases av <;>
@@ -307,20 +351,20 @@ def recStep (F : Facts) (pyNone : V) (s : String × E V) : Option (String × Obj
       | none => none
 
 /-- what the reference semantics feeds to `foldSteps` for one step -/
-def refStep (prim : Prim V S) (target : V) (st : String × E V) :
+def refStep (prim : Prim V S) (rv : RV V S) (target : V) (st : String × E V) :
     Option Kind × Run S RefErr (AV V) :=
   (meaning st.1, if arglessDunders.contains st.1 then (fun s => (.ok (.val prim.none), s))
-                 else refArg prim target st.2)
+                 else refArg prim rv target st.2)
 
-theorem stepsEval_eq_fold (F : Facts) (hwf : WF F = true) (prim : Prim V S)
-    (hcallee : PlainCallee prim) (target : V)
+theorem stepsEval_eq_fold (F : Facts) (hwf : WF F = true) (prim : Prim V S) (target : V)
     {steps : List (String × E V)} {cells : List (String × Obj V)}
     (h2 : All2 (fun st cell => recStep F prim.none st = some cell) steps cells)
     (ih : ∀ st ∈ steps, ∀ o, record F prim.none st.2 = some o →
-        argVal F prim target o = outRun F (refArg prim target st.2)) :
+        argVal F prim target o = outRun F (refArg prim prim.revalFunc target st.2)) :
     ∀ (k : Nat) (s : S) (cur : V),
       stepsEval F prim target (argVal F prim target) cells k s cur =
-        outS F (foldSteps prim (steps.map (refStep prim target)) k s cur) := by
+        outS F (foldSteps prim (fun s f => prim.revalFunc s target f)
+          (steps.map (refStep prim prim.revalFunc target)) k s cur) := by
   induction h2 with
   | nil => intro k s cur; rfl
   | @cons st cell steps cells hs _ ih2 =>
@@ -334,7 +378,7 @@ theorem stepsEval_eq_fold (F : Facts) (hwf : WF F = true) (prim : Prim V S)
       rw [hc] at hs
       simp only at hs
       obtain ⟨kind, ks, caught, hm, hd, hk, hcg⟩ := recorded_wf hwf hc
-      have hav : argVal F prim target ao = outRun F (refStep prim target (d, a)).2 := by
+      have hav : argVal F prim target ao = outRun F (refStep prim prim.revalFunc target (d, a)).2 := by
         simp only [refStep]
         split at hs
         · rename_i hargless
@@ -359,25 +403,31 @@ theorem stepsEval_eq_fold (F : Facts) (hwf : WF F = true) (prim : Prim V S)
           | some a' => rw [hr] at hs; simp only [Option.some.injEq, Prod.mk.injEq] at hs; exact hs.1
       subst hcc
       simp only [stepsEval, List.map_cons, foldSteps, hav]
-      have hfst : (refStep prim target (d, a)).1 = some kind := by simp [refStep, hm]
+      have hfst : (refStep prim prim.revalFunc target (d, a)).1 = some kind := by simp [refStep, hm]
       rw [hfst]
-      rw [stepOp_eq F hwf prim hcallee target k c' s cur _ kind ks caught hd hk hcg]
+      rw [stepOp_eq F hwf prim target k c' s cur _ kind ks caught hd hk hcg]
       simp only [outRun, outS]
-      cases hra : (refStep prim target (d, a)).2 s with
-      | mk x s1 =>
-        cases x with
+      cases hcal : calleeOf (some kind) (fun s f => prim.revalFunc s target f) s cur with
+      | mk rf s0 =>
+        cases rf with
         | error e => rfl
-        | ok av =>
-          simp only [outOf]
-          cases hp : pyApply prim kind s1 cur av with
-          | none => rfl
-          | some r =>
-            obtain ⟨r, s2⟩ := r
-            cases r with
+        | ok f =>
+          simp only
+          cases hra : (refStep prim prim.revalFunc target (d, a)).2 s0 with
+          | mk x s1 =>
+            cases x with
             | error e => rfl
-            | ok v =>
-              simp only [stepOut]
-              exact ih2 (fun st hst => ih st (by simp [hst])) (k + 1) s2 v
+            | ok av =>
+              simp only [outOf]
+              cases hp : pyApply prim kind s1 f av with
+              | none => rfl
+              | some r =>
+                obtain ⟨r, s2⟩ := r
+                cases r with
+                | error e => rfl
+                | ok v =>
+                  simp only [stepOut]
+                  exact ih2 (fun st hst => ih st (by simp [hst])) (k + 1) s2 v
 
 theorem record_texpr (F : Facts) (pyNone : V) (steps : List (String × E V)) :
     record F pyNone (.texpr steps) =
@@ -386,19 +436,19 @@ theorem record_texpr (F : Facts) (pyNone : V) (steps : List (String × E V)) :
       | none => none := by
   rw [record]; rfl
 
-theorem refArg_texpr (prim : Prim V S) (target : V) (steps : List (String × E V)) (s : S) :
-    refArg prim target (.texpr steps) s =
-      match foldSteps prim (steps.map (refStep prim target)) 0 s target with
+theorem refArg_texpr (prim : Prim V S) (rv : RV V S) (target : V) (steps : List (String × E V)) (s : S) :
+    refArg prim rv target (.texpr steps) s =
+      match foldSteps prim (fun s f => rv s target f) (steps.map (refStep prim rv target)) 0 s target with
       | (.ok v, s1) => (.ok (.val v), s1)
       | (.error e, s1) => (.error e, s1) := by
   rw [refArg]; rfl
 
-theorem refEval_texpr (prim : Prim V S) (target : V) (steps : List (String × E V)) (s : S) :
-    refEval prim (.texpr steps) target s =
-      foldSteps prim (steps.map (refStep prim target)) 0 s target := by
+theorem refEval_texpr (prim : Prim V S) (rv : RV V S) (target : V) (steps : List (String × E V)) (s : S) :
+    refEval prim rv (.texpr steps) target s =
+      foldSteps prim (fun s f => rv s target f) (steps.map (refStep prim rv target)) 0 s target := by
   unfold refEval
   rw [refArg_texpr]
-  cases h : foldSteps prim (steps.map (refStep prim target)) 0 s target with
+  cases h : foldSteps prim (fun s f => rv s target f) (steps.map (refStep prim rv target)) 0 s target with
   | mk x s1 => cases x <;> rfl
 
 theorem argVal_tt_T (F : Facts) (prim : Prim V S) (target : V) (cells : List (String × Obj V))
@@ -485,6 +535,16 @@ theorem record_tt_inv (F : Facts) (pyNone : V) (e : E V) (ops : List (Obj V))
   | cargs args kwargs =>
     rw [record] at h
     split at h <;> cases h
+  | set ty xs =>
+    rw [record] at h
+    simp only [Option.map_eq_some_iff] at h
+    obtain ⟨_, _, h⟩ := h
+    cases h
+  | sub base v items =>
+    rw [record] at h
+    simp only [Option.map_eq_some_iff] at h
+    obtain ⟨_, _, h⟩ := h
+    cases h
 
 theorem argVal_spec_nontt (F : Facts) (prim : Prim V S) (target : V) (o : Obj V)
     (h : ∀ ops, o ≠ .tt ops) :
@@ -493,17 +553,25 @@ theorem argVal_spec_nontt (F : Facts) (prim : Prim V S) (target : V) (o : Obj V)
   | tt ops => exact absurd rfl (h ops)
   | _ => rw [argVal] <;> simp
 
-theorem refArg_spec_nontexpr (prim : Prim V S) (target : V) (e : E V)
+theorem refArg_spec_nontexpr (prim : Prim V S) (rv : RV V S) (target : V) (e : E V)
     (h : ∀ steps, e ≠ .texpr steps) :
-    refArg prim target (.spec e) = fun s => (.error .unsupported, s) := by
+    refArg prim rv target (.spec e) = fun s => (.error .unsupported, s) := by
   cases e with
   | texpr steps => exact absurd rfl (h steps)
   | _ => rw [refArg] <;> simp
 
-theorem argVal_record (F : Facts) (hwf : WF F = true) (prim : Prim V S)
-    (hcallee : PlainCallee prim) (target : V) :
+theorem argVal_sub_exact (F : Facts) (prim : Prim V S) (target : V) (base : String) (v : V)
+    (items : List (Obj V)) (h : F.argInst.contains base = false) :
+    argVal F prim target (.sub base v items) = fun s => (.ok (.val v), s) := by
+  rw [argVal]; simp only [h, Bool.false_eq_true, if_false]
+
+/-- **the main induction**, without any hypothesis on the callee: replaying the recorded object
+    is applying the chain directly, where the callee of every call is first passed through
+    `arg_val` (`prim.revalFunc`) -/
+theorem argVal_record (F : Facts) (hwf : WF F = true) (prim : Prim V S) (target : V) :
     ∀ (e : E V) (o : Obj V), record F prim.none e = some o →
-      argVal F prim target o = outRun F (refArg prim target e) := by
+      argVal F prim target o = outRun F (refArg prim prim.revalFunc target e) := by
+  obtain ⟨hinst, hrl, hrt, hrd, hreb⟩ := argMode_wf hwf
   intro e
   induction e using E.induct with
   | lit v =>
@@ -521,8 +589,9 @@ theorem argVal_record (F : Facts) (hwf : WF F = true) (prim : Prim V S)
       funext s
       simp only [outRun]
       rw [argVal_tt_T, refArg_texpr,
-        stepsEval_eq_fold F hwf prim hcallee target (allSome_forall2 _ _ _ hc) ih 0 s target]
-      cases hq : foldSteps prim (steps.map (refStep prim target)) 0 s target with
+        stepsEval_eq_fold F hwf prim target (allSome_forall2 _ _ _ hc) ih 0 s target]
+      cases hq : foldSteps prim (fun s f => prim.revalFunc s target f)
+        (steps.map (refStep prim prim.revalFunc target)) 0 s target with
       | mk x s1 => cases x <;> rfl
   | spec e ih =>
     intro o h
@@ -544,7 +613,7 @@ theorem argVal_record (F : Facts) (hwf : WF F = true) (prim : Prim V S)
           · simp only [Option.some.injEq] at hr; exact htt ⟨_, hr.symm⟩
           · cases hr
         rw [argVal_spec_nontt F prim target o' (fun ops h => htt ⟨ops, h⟩),
-          refArg_spec_nontexpr prim target e hne]
+          refArg_spec_nontexpr prim prim.revalFunc target e hne]
         rfl
   | list xs ih =>
     intro o h
@@ -554,14 +623,15 @@ theorem argVal_record (F : Facts) (hwf : WF F = true) (prim : Prim V S)
     | some os =>
       rw [hc] at h; simp only [Option.map_some, Option.some.injEq] at h; subst h
       have hmap := map_eq_of_forall2 (g := fun a => argVal F prim target a)
-        (h := fun x => outRun F (refArg prim target x)) (allSome_forall2 _ _ _ hc)
+        (h := fun x => outRun F (refArg prim prim.revalFunc target x)) (allSome_forall2 _ _ _ hc)
         (fun x hx y hxy => ih x hx y hxy)
-      have hmm : xs.map (fun x => outRun F (refArg prim target x)) =
-          (xs.map (fun x => refArg prim target x)).map (outRun F) := by rw [List.map_map]; rfl
+      have hmm : xs.map (fun x => outRun F (refArg prim prim.revalFunc target x)) =
+          (xs.map (fun x => refArg prim prim.revalFunc target x)).map (outRun F) := by
+        rw [List.map_map]; rfl
       funext s
       rw [argVal, refArg, hmap, hmm, valsOf_outRun]
-      simp only [outRun, outS]
-      cases hq : refVals (xs.map (fun x => refArg prim target x)) s with
+      simp only [hrl, if_true, outRun, outS]
+      cases hq : refVals (xs.map (fun x => refArg prim prim.revalFunc target x)) s with
       | mk x s1 => cases x <;> rfl
   | tuple xs ih =>
     intro o h
@@ -571,14 +641,15 @@ theorem argVal_record (F : Facts) (hwf : WF F = true) (prim : Prim V S)
     | some os =>
       rw [hc] at h; simp only [Option.map_some, Option.some.injEq] at h; subst h
       have hmap := map_eq_of_forall2 (g := fun a => argVal F prim target a)
-        (h := fun x => outRun F (refArg prim target x)) (allSome_forall2 _ _ _ hc)
+        (h := fun x => outRun F (refArg prim prim.revalFunc target x)) (allSome_forall2 _ _ _ hc)
         (fun x hx y hxy => ih x hx y hxy)
-      have hmm : xs.map (fun x => outRun F (refArg prim target x)) =
-          (xs.map (fun x => refArg prim target x)).map (outRun F) := by rw [List.map_map]; rfl
+      have hmm : xs.map (fun x => outRun F (refArg prim prim.revalFunc target x)) =
+          (xs.map (fun x => refArg prim prim.revalFunc target x)).map (outRun F) := by
+        rw [List.map_map]; rfl
       funext s
       rw [argVal, refArg, hmap, hmm, valsOf_outRun]
-      simp only [outRun, outS]
-      cases hq : refVals (xs.map (fun x => refArg prim target x)) s with
+      simp only [hrt, if_true, outRun, outS]
+      cases hq : refVals (xs.map (fun x => refArg prim prim.revalFunc target x)) s with
       | mk x s1 => cases x <;> rfl
   | dict es ih =>
     intro o h
@@ -588,7 +659,8 @@ theorem argVal_record (F : Facts) (hwf : WF F = true) (prim : Prim V S)
       (g := fun (p : Obj V × Obj V) =>
         entryRun prim (valOfRun (argVal F prim target p.1)) (valOfRun (argVal F prim target p.2)))
       (h := fun (p : E V × E V) => outRun F
-        (refEntryRun prim (refValRun (refArg prim target p.1)) (refValRun (refArg prim target p.2))))
+        (refEntryRun prim (refValRun (refArg prim prim.revalFunc target p.1))
+          (refValRun (refArg prim prim.revalFunc target p.2))))
       (allSome_forall2 _ _ _ hc)
       (fun p hp q hpq => by
         simp only [pairOpt] at hpq
@@ -600,21 +672,47 @@ theorem argVal_record (F : Facts) (hwf : WF F = true) (prim : Prim V S)
             entryRun_outRun]
         · cases hpq)
     have hmm : es.map (fun (p : E V × E V) => outRun F
-          (refEntryRun prim (refValRun (refArg prim target p.1)) (refValRun (refArg prim target p.2)))) =
+          (refEntryRun prim (refValRun (refArg prim prim.revalFunc target p.1))
+            (refValRun (refArg prim prim.revalFunc target p.2)))) =
         (es.map (fun (p : E V × E V) =>
-          refEntryRun prim (refValRun (refArg prim target p.1)) (refValRun (refArg prim target p.2)))).map
+          refEntryRun prim (refValRun (refArg prim prim.revalFunc target p.1))
+            (refValRun (refArg prim prim.revalFunc target p.2)))).map
           (outRun F) := by rw [List.map_map]; rfl
     funext s
     rw [argVal, refArg, hmap, hmm, seqRun_map_outRun]
-    simp only [outRun, outS]
+    simp only [hrd, if_true, outRun, outS]
     cases hq : seqRun (es.map (fun p =>
-      refEntryRun prim (refValRun (refArg prim target p.1)) (refValRun (refArg prim target p.2)))) s with
+      refEntryRun prim (refValRun (refArg prim prim.revalFunc target p.1))
+        (refValRun (refArg prim prim.revalFunc target p.2)))) s with
     | mk x s1 =>
       cases x with
       | error e => rfl
       | ok kvs =>
         simp only [outOf]
         cases hm : (prim.mkDict s1 kvs).1 <;> rfl
+  | set ty xs ih =>
+    intro o h
+    rw [record] at h
+    obtain ⟨os, hc, rfl⟩ := Option.map_eq_some_iff.mp h
+    have hmap := map_eq_of_forall2 (g := fun a => argVal F prim target a)
+      (h := fun x => outRun F (refArg prim prim.revalFunc target x)) (allSome_forall2 _ _ _ hc)
+      (fun x hx y hxy => ih x hx y hxy)
+    have hmm : xs.map (fun x => outRun F (refArg prim prim.revalFunc target x)) =
+        (xs.map (fun x => refArg prim prim.revalFunc target x)).map (outRun F) := by
+      rw [List.map_map]; rfl
+    rw [argVal, refArg, hmap, hmm, valsOf_outRun, hreb ty]
+    cases hty : rebuiltTypes.contains ty with
+    | false => rfl
+    | true =>
+      funext s
+      simp only [if_true, outRun, outS]
+      cases hq : refVals (xs.map (fun x => refArg prim prim.revalFunc target x)) s with
+      | mk x s1 =>
+        cases x with
+        | error e => rfl
+        | ok vs =>
+          simp only [outOf]
+          cases hm : (prim.mkSet s1 ty vs).1 <;> rfl
   | cargs args kwargs iha ihk =>
     intro o h
     rw [record] at h
@@ -622,35 +720,42 @@ theorem argVal_record (F : Facts) (hwf : WF F = true) (prim : Prim V S)
     · rename_i as ks hca hck
       simp only [Option.some.injEq] at h; subst h
       have hmapa := map_eq_of_forall2 (g := fun a => argVal F prim target a)
-        (h := fun x => outRun F (refArg prim target x)) (allSome_forall2 _ _ _ hca)
+        (h := fun x => outRun F (refArg prim prim.revalFunc target x)) (allSome_forall2 _ _ _ hca)
         (fun x hx y hxy => iha x hx y hxy)
       have hmapk := map_eq_of_forall2
         (g := fun (p : String × Obj V) => kwOfRun p.1 (argVal F prim target p.2))
-        (h := fun (p : String × E V) => outRun F (refKwRun p.1 (refArg prim target p.2)))
+        (h := fun (p : String × E V) => outRun F (refKwRun p.1 (refArg prim prim.revalFunc target p.2)))
         (allSome_forall2 _ _ _ hck)
         (fun p hp q hpq => by
           simp only [Option.map_eq_some_iff] at hpq
           obtain ⟨a, ha, rfl⟩ := hpq
           simp only
           rw [ihk p hp a ha, kwOfRun_outRun])
-      have hmma : args.map (fun x => outRun F (refArg prim target x)) =
-          (args.map (fun x => refArg prim target x)).map (outRun F) := by rw [List.map_map]; rfl
+      have hmma : args.map (fun x => outRun F (refArg prim prim.revalFunc target x)) =
+          (args.map (fun x => refArg prim prim.revalFunc target x)).map (outRun F) := by
+        rw [List.map_map]; rfl
       have hmmk : kwargs.map (fun (p : String × E V) =>
-            outRun F (refKwRun p.1 (refArg prim target p.2))) =
-          (kwargs.map (fun (p : String × E V) => refKwRun p.1 (refArg prim target p.2))).map
+            outRun F (refKwRun p.1 (refArg prim prim.revalFunc target p.2))) =
+          (kwargs.map (fun (p : String × E V) => refKwRun p.1 (refArg prim prim.revalFunc target p.2))).map
             (outRun F) := by rw [List.map_map]; rfl
       funext s
       rw [argVal, refArg, hmapa, hmapk, hmma, valsOf_outRun, hmmk, seqRun_map_outRun]
       simp only [outRun, outS]
-      cases hq : refVals (args.map (fun x => refArg prim target x)) s with
+      cases hq : refVals (args.map (fun x => refArg prim prim.revalFunc target x)) s with
       | mk x s1 =>
         cases x with
         | error e => rfl
         | ok vs =>
           simp only [outOf]
-          cases hq2 : seqRun (kwargs.map (fun p => refKwRun p.1 (refArg prim target p.2))) s1 with
+          cases hq2 : seqRun (kwargs.map (fun p => refKwRun p.1 (refArg prim prim.revalFunc target p.2))) s1 with
           | mk y s2 => cases y <;> rfl
     · cases h
+  | sub base v items _ =>
+    intro o h
+    rw [record] at h
+    obtain ⟨os, _, rfl⟩ := Option.map_eq_some_iff.mp h
+    rw [argVal_sub_exact F prim target base v os (hinst base), refArg]
+    rfl
 
 /-! ### consequences of `kindsOk` -/
 
@@ -664,7 +769,7 @@ theorem kindsOk_of_wf {F : Facts} (hwf : WF F = true) (kind : Kind) :
     (∀ n ∈ docCaught kind, caughtBy F (caughtOfKind F kind) ⟨n⟩ = true) ∧
     (kind = .call → caughtOfKind F kind = []) := by
   simp only [WF, Bool.and_eq_true] at hwf
-  have hk := hwf.1.1.1.1.2
+  have hk := hwf.1.1.1.1.1.2
   simp only [kindsOk, List.all_eq_true, Bool.and_eq_true, Bool.or_eq_true] at hk
   have := hk kind (mem_allKinds kind)
   refine ⟨this.1, fun hc => ?_⟩
@@ -688,33 +793,39 @@ theorem errOf_opFail {F : Facts} (hwf : WF F = true) (k : Nat) (kind : Kind) (e 
     simp only [errOf, hcall hc, caughtBy, List.any_nil]
     rfl
 
-theorem foldSteps_append (prim : Prim V S)
+theorem foldSteps_append (prim : Prim V S) (rv : S → V → Except Err V × S)
     (l1 l2 : List (Option Kind × Run S RefErr (AV V))) :
-    ∀ (k : Nat) (s : S) (cur : V), foldSteps prim (l1 ++ l2) k s cur =
-      match foldSteps prim l1 k s cur with
+    ∀ (k : Nat) (s : S) (cur : V), foldSteps prim rv (l1 ++ l2) k s cur =
+      match foldSteps prim rv l1 k s cur with
       | (.error e, s1) => (.error e, s1)
-      | (.ok v, s1) => foldSteps prim l2 (k + l1.length) s1 v := by
+      | (.ok v, s1) => foldSteps prim rv l2 (k + l1.length) s1 v := by
   induction l1 with
   | nil => intro k s cur; simp [foldSteps]
   | cons st r ih =>
     intro k s cur
     obtain ⟨kd, ra⟩ := st
     simp only [List.cons_append, foldSteps, List.length_cons]
-    cases hra : ra s with
-    | mk x s1 =>
-      cases x with
+    cases hcal : calleeOf kd rv s cur with
+    | mk rf s0 =>
+      cases rf with
       | error e => rfl
-      | ok av =>
-        cases kd with
-        | none => rfl
-        | some kind =>
-          simp only
-          cases hp : pyApply prim kind s1 cur av with
-          | none => rfl
-          | some r' =>
-            obtain ⟨r', s2⟩ := r'
-            cases r' with
-            | error e => rfl
-            | ok v => simp only; rw [ih]; rw [show k + 1 + r.length = k + (r.length + 1) by omega]
+      | ok f =>
+        simp only
+        cases hra : ra s0 with
+        | mk x s1 =>
+          cases x with
+          | error e => rfl
+          | ok av =>
+            cases kd with
+            | none => rfl
+            | some kind =>
+              simp only
+              cases hp : pyApply prim kind s1 f av with
+              | none => rfl
+              | some r' =>
+                obtain ⟨r', s2⟩ := r'
+                cases r' with
+                | error e => rfl
+                | ok v => simp only; rw [ih]; rw [show k + 1 + r.length = k + (r.length + 1) by omega]
 
 end Glom.C02
